@@ -646,9 +646,10 @@ Definition names_okb (d : xdoc) : bool :=
   forallb (fun e => negb (is_fs e) ||
      (opt_eqb String.eqb (type_of_elem (x_ns e) (x_tag e)) (Some (reader_tname (x_ns e) (x_tag e)))
       && negb (String.eqb (reader_tname (x_ns e) (x_tag e)) T_NULL))) d.
-(* only annotations have a feature called sofa (Cas.add overwrites any attribute of that name) *)
+(* only annotations have a feature called sofa (Cas.add overwrites any attribute of that name), and they all have it *)
 Definition sofa_feat_okb (s : schema) : bool :=
-  forallb (fun ti => negb (has_feat ti "sofa") || memb T_ANNOTATION_BASE (ti_anc ti)) s.
+  forallb (fun ti => (negb (has_feat ti "sofa") || memb T_ANNOTATION_BASE (ti_anc ti))
+                     && (negb (memb T_ANNOTATION (ti_anc ti)) || has_feat ti "sofa")) s.
 Definition sofa_name (e : xelem) : string := match xattr e "sofaID" with Some a => a | None => "" end.
 (* view names are distinct and the document has the _InitialView sofa *)
 Definition sofas_okb (d : xdoc) : bool :=
